@@ -18,8 +18,43 @@ TEMPLATES = {
 }
 
 
-def tmpl_spaces(base, names, **kw):
-    return [dict(base, gen='tmpl', tmpl=TEMPLATES[n], tname=n, **kw) for n in names]
+def reseed_template(t, seed):
+    """the same sentence with its symbolic positions moved: seed 0 is the table entry; any other seed makes the
+    entry concrete ('?' -> 'o') and re-places as many '?' at pseudo-randomly chosen letter / space / hyphen positions
+    outside escape sequences.  VERIF_SEED selects the variant of every template space; the thorough tier adds
+    variants 1 and 2 of the multi-word templates on its own."""
+    if not seed:
+        return t
+    import random
+    rnd = random.Random(seed * 1000003 + sum(ord(c) for c in t))
+    k = t.count('?')
+    base = list(t.replace('?', 'o'))
+    cand = []
+    esc = 0
+    for i, ch in enumerate(base):
+        if ch == '\x1b':
+            esc = 1
+        elif esc:
+            if esc == 1 and ch == ']':
+                esc = 2
+            elif (esc == 1 and ch == '[') or (esc == 3):
+                esc = 3 if not ('@' <= ch <= '~' and ch != '[') else 0
+            elif esc == 2 and ch == '\x07':
+                esc = 0
+            elif esc == 1:
+                esc = 0
+        elif ch.isascii() and (ch.isalpha() or ch in ' -'):
+            cand.append(i)
+    for i in rnd.sample(cand, min(k, len(cand))):
+        base[i] = '?'
+    return ''.join(base)
+
+
+def tmpl_spaces(base, names, variant=None, **kw):
+    import os
+    seed = int(os.environ.get('VERIF_SEED', '0') or 0) if variant is None else variant
+    return [dict(base, gen='tmpl', tmpl=reseed_template(TEMPLATES[n], seed), tname=n if not seed else '%s~%d' % (n, seed), **kw)
+            for n in names]
 
 
 def std_tmpl_spaces(base, q, variants=True, names=None, **kw):
@@ -29,10 +64,14 @@ def std_tmpl_spaces(base, q, variants=True, names=None, **kw):
         return tmpl_spaces(base, names or ['short', 'longword', 'crlf'], **kw)
     names = names or [n for n in TEMPLATES if n != 'short']
     out = tmpl_spaces(base, names, **kw)
+    multi = [n for n in names if n in ('sentence', 'paras', 'hyphens', 'wide')]
     if variants:
-        multi = [n for n in names if n in ('sentence', 'paras', 'hyphens', 'wide')]
         out += tmpl_spaces(dict(base, bw=False), multi, **kw)
         out += tmpl_spaces(dict(base, ind='both', imax=1), multi, **kw)
+    import os
+    if not int(os.environ.get('VERIF_SEED', '0') or 0):
+        for v in (1, 2):      # the symbolic positions moved elsewhere in the same sentences
+            out += tmpl_spaces(base, multi, variant=v, **kw)
     return out
 
 
